@@ -319,6 +319,16 @@ theorem dispatchK_other_by_keyword {κ : Type} (T : Tables) (c f m d : String) (
   exact torchFunction_first T c f m d _ [] kw (.op c)
     (by simpa [isInstance] using isSubclass_self_of_resolve T.classes c m d hr) (typesOK_single c) hf hr
 
+/-- An unregistered function raises `NotImplementedError` also when torch finds the operator somewhere else than among the
+top-level positional arguments (inside a list / tuple argument as in `torch.cat([op, T])`, or passed by keyword). -/
+theorem dispatchK_unregistered {κ : Type} (T : Tables) (f : String) (args kwops : List Arg) (kw : κ) (c : String)
+    (hc : Arg.op c ∈ args ++ kwops) (hne : args ≠ []) (h1 : T.first.lookup f = none) (h2 : T.second.lookup f = none) :
+    dispatchK T f args kwops kw = .notImplementedError := by
+  have hop : hasOp (overloaded T.classes (args ++ kwops)) = true :=
+    hasOp_of_mem _ c (mem_overloaded T.classes (args ++ kwops) (.op c) (.opc c) hc rfl)
+  simp only [dispatchK, hop, if_true]
+  exact handlers_const T f _ args kw _ _ hop (fun c' => torchFunction_unregistered T c' f _ args kw hne h1 h2)
+
 theorem dispatchKN_false {κ : Type} (T : Tables) (f : String) (args kwops : List Arg) (kw : κ) :
     dispatchKN false T f args kwops kw = dispatchK T f args kwops kw := by
   simp [dispatchKN, dispatchK]
